@@ -51,6 +51,14 @@ def jobs(tier, seed):
                         continue
                     out.append(dict(name=f"resume-{solver}-{route}-k{'+'.join(map(str, ks))}-K{K}-f{f}-m{m}-{'a' if a else 's'}", kind="resume", solver=solver,
                                     route=route, ks=ks, K=K, f=f, m=m, async_=a, devices=1, seed=seed, cost=K))
+        if solver == "pi":
+            # non-default option: every policy evaluation restarts from the initial value estimates
+            for route in ("restore", "load"):
+                for (ks, K) in ([([2], 4), ([1, 1], 4)] if q else [([1], 3), ([2], 4), ([3], 5), ([1, 1], 4), ([2, 1], 5)]):
+                    for mei in (1, 2):
+                        out.append(dict(name=f"resume-pi-reset-{route}-k{'+'.join(map(str, ks))}-K{K}-e{mei}", kind="resume", solver="pi", route=route, ks=ks, K=K,
+                                        f=1, m=1, async_=True, devices=1, seed=seed, cost=K,
+                                        extra=dict(reset_values_for_each_policy_eval=True, max_eval_iter=mei)))
         for (f, m, a) in [(1, 1, True), (2, 2, False), (3, 1, True)]:
             out.append(dict(name=f"onoff-{solver}-f{f}-m{m}-{'a' if a else 's'}", kind="onoff", solver=solver, K=3 if q else 4, f=f, m=m, async_=a,
                             devices=1, seed=seed, cost=3))
@@ -80,11 +88,12 @@ def scenario(job, dirs):
             return any("Convergence threshold reached" in m or "Policy converged" in m for m in msgs[n0:])
         finally:
             logger.remove(hid)
-    ref = ckkit.make_solver(name, ckkit.make_problem(kind, job.get("seed", 0)))
+    extra = job.get("extra") or {}
+    ref = ckkit.make_solver(name, ckkit.make_problem(kind, job.get("seed", 0)), **extra)
     init(ref)
     ab.attach(ref, name, "ref")
     d = dirs.new()
-    s = ckkit.make_solver(name, ckkit.make_problem(kind, job.get("seed", 0)), ckdir=d, f=job["f"], m=job["m"], async_=job["async_"])
+    s = ckkit.make_solver(name, ckkit.make_problem(kind, job.get("seed", 0)), ckdir=d, f=job["f"], m=job["m"], async_=job["async_"], **extra)
     init(s)
     ab.attach(s, name, "run")
     interrupted_ok = True
@@ -100,7 +109,7 @@ def scenario(job, dirs):
             if job["route"] == "restore":
                 s = type(s).restore(d)
             else:
-                s = ckkit.make_solver(name, ckkit.make_problem(kind, job.get("seed", 0)), ckdir=d, f=job["f"], m=job["m"], async_=job["async_"])
+                s = ckkit.make_solver(name, ckkit.make_problem(kind, job.get("seed", 0)), ckdir=d, f=job["f"], m=job["m"], async_=job["async_"], **extra)
                 s.load_checkpoint(d)
             ab.attach(s, name, "run")
         if interrupted_ok:
@@ -174,7 +183,7 @@ def replay(data):
         try:
             d = dirs.new()
             eps = 1e-12 if variant == "real-sweeps" else 1e-3
-            mk = lambda **kw: ckkit.make_solver(name, ckkit.make_problem(kind, job.get("seed", 0)), epsilon=eps, **kw)
+            mk = lambda **kw: ckkit.make_solver(name, ckkit.make_problem(kind, job.get("seed", 0)), epsilon=eps, **dict(job.get("extra") or {}, **kw))
 
             def force(s):
                 if variant == "real-sweeps":
